@@ -9,6 +9,7 @@ package simpleshell
 
 // TLSFingerprintVerifier: malformed fingerprints are refused outright.
 //@ func TLSFingerprintVerifier(fp) (f, err)
+//@   locals fp wantFP err cs i cert b err h
 //@   props C13
 //@   ghost dec []byte = nil
 //@   ghost decErr bool = false
@@ -43,6 +44,7 @@ package simpleshell
 
 // Go: per-call client; the process-wide defaults are left alone.
 //@ func Go(ctx, conf, shell) (err)
+//@   locals ctx conf shell client vfp err transport res err err
 //@   props C13
 //@   assumes default_client_exists: http.DefaultClient != nil
 //@   assumes default_transport_is_a_Transport: implements(http.DefaultTransport, "*net/http.Transport")
@@ -58,6 +60,7 @@ package simpleshell
 //@   ensures process_defaults_untouched: onlyFreshWritten()
 
 //@ func GoSimple(ctx, c2, fingerprint, args) (err)
+//@   locals ctx c2 fingerprint args shell err
 //@   props C13
 //@   ghost n int = 0
 //@   on enter Go(c, conf, sh): assert(conf.C2 == c2 && conf.Fingerprint == fingerprint, "configuration_passed_on"); n++
@@ -65,17 +68,20 @@ package simpleshell
 
 // ---- wrapped command (C14)
 //@ func NewCmdShell(cmd) (c, err)
+//@   locals cmd c err pr pw
 //@   props C14
 //@   ensures usable: imp(err == nil, c != nil)
 //@   ensures pipes: imp(err == nil, c.cmd == cmd && c.sout != nil && c.serr != nil && c.sout != c.serr && c.outr != nil && c.outw != nil)
 
 //@ func CmdShell.SetInput(c, in)
+//@   locals c in
 //@   props C14
 //@   nilable in
 //@   requires hascmd: c.cmd != nil
 //@   ensures stdin_is_the_given_reader: c.cmd.Stdin == in
 
 //@ func CmdShell.Output(c) (r)
+//@   locals c
 //@   props C14
 //@   ensures the_pipe_reader: r == c.outr
 
@@ -83,6 +89,7 @@ package simpleshell
 // reads from the pipes have completed - and the output stream ends only after
 // both copies are done; the command's error is what Go reports.
 //@ func CmdShell.Go(c, ctx) (err)
+//@   locals c ctx err peg err err perr err
 //@   props C14
 //@   requires wired: c.cmd != nil && c.outw != nil && c.sout != nil && c.serr != nil && c.sout != c.serr
 //@   ghost started bool = false
